@@ -6,72 +6,7 @@ Helper lemmas for C10: last-write-wins semantics of a kv list, DelDupKey, key sh
 namespace C10
 open C09 (Bytes ble blt Store put erase get Sorted)
 
-section store
-variable {β : Type}
-
-theorem get_put (db : Store β) (k : Bytes) (v : β) (key : Bytes) :
-    get (put db k v) key = if key = k then some v else get db key := by
-  induction db with
-  | nil =>
-    by_cases h : key = k
-    · subst h; simp [put, C09.get]
-    · have : (k == key) = false := by simpa using fun e => h e.symm
-      simp [put, C09.get, h, this]
-  | cons x r ih =>
-    obtain ⟨k', v'⟩ := x
-    simp only [put]
-    split
-    · by_cases h : key = k
-      · subst h; simp [C09.get]
-      · have : (k == key) = false := by simpa using fun e => h e.symm
-        simp [C09.get, List.find?, h, this]
-    · split
-      · rename_i h2
-        subst h2
-        by_cases h : key = k
-        · subst h; simp [C09.get]
-        · have : (k == key) = false := by simpa using fun e => h e.symm
-          simp [C09.get, List.find?, h, this]
-      · rename_i h2
-        by_cases h : key = k
-        · subst h
-          have : (k' == key) = false := by simpa using fun e => h2 e.symm
-          have ih' := ih
-          simp only [C09.get, if_true] at ih'
-          simp [C09.get, List.find?, this, ih']
-        · simp only [h, if_false] at ih ⊢
-          simp only [C09.get, List.find?] at ih ⊢
-          cases hk : (k' == key) with
-          | true => rfl
-          | false => simpa using ih
-
-theorem get_erase (db : Store β) (k key : Bytes) :
-    get (erase db k) key = if key = k then none else get db key := by
-  induction db with
-  | nil => simp [erase, C09.get]
-  | cons x r ih =>
-    simp only [erase, C09.get] at ih ⊢
-    by_cases hx : x.1 = k
-    · have h1 : (x.1 != k) = false := by simpa using hx
-      simp only [List.filter_cons, h1]
-      by_cases h : key = k
-      · simp only [h, if_true] at ih ⊢; exact ih
-      · simp only [h, if_false] at ih ⊢
-        have : (x.1 == key) = false := by simpa [hx] using fun e => h e.symm
-        simp only [List.find?, this]; exact ih
-    · have h1 : (x.1 != k) = true := by simpa using hx
-      simp only [List.filter_cons, h1, if_true]
-      by_cases h : key = k
-      · simp only [h, if_true] at ih ⊢
-        have : (x.1 == k) = false := by simpa using hx
-        simp only [List.find?, this]; exact ih
-      · simp only [h, if_false] at ih ⊢
-        simp only [List.find?]
-        cases (x.1 == key) with
-        | true => rfl
-        | false => exact ih
-
-end store
+open C09 (get_put get_erase)
 
 /-- the last entry of a kv list for `key` (`none`: the list does not mention the key). -/
 def lastW (kvs : List KV) (key : Bytes) : Option (Option Val) :=
